@@ -128,7 +128,8 @@ impl RegexMatcher {
 /// that group is the first one, so every back-reference names the group after
 /// the one it says; and in a POSIX extended regular expression a ')' without
 /// a '(' before it is an ordinary character, which would close the wrapping
-/// group instead, so it is escaped.
+/// group instead, so it is escaped.  (The character classes the engine reads
+/// differently from POSIX are spelled out on the way.)
 fn inside_group(pattern: &str, extended: bool) -> String {
     let mut result = String::with_capacity(pattern.len());
     let mut depth = 0usize;
@@ -166,11 +167,26 @@ fn inside_group(pattern: &str, extended: bool) -> String {
                         break;
                     }
                     if member == '[' && chars.peek() == Some(&':') {
+                        let mut class = String::new();
                         for class_char in chars.by_ref() {
-                            result.push(class_char);
+                            class.push(class_char);
                             if class_char == ']' {
                                 break;
                             }
+                        }
+                        // The engine's [:punct:] and [:digit:] are Unicode categories;
+                        // POSIX means the 32 ASCII characters that are neither
+                        // alphanumeric nor blank ($ + < = > ^ ` | ~ included) and 0-9.
+                        match class.as_str() {
+                            ":punct:]" => {
+                                result.pop();
+                                result.push_str("!-/:-@[-`{-~");
+                            }
+                            ":digit:]" => {
+                                result.pop();
+                                result.push_str("0-9");
+                            }
+                            _ => result.push_str(&class),
                         }
                     }
                 }
